@@ -47,6 +47,10 @@ def src(e, spelling="class"):
         return "Pregex(%r)" % e[1]
     if k == "obj":
         return e[1]
+    if k == "sym":
+        return "A%d" % e[1]
+    if k == "psym":
+        return "Pregex(A%d)" % e[1]
     if k == "cond":
         return "Conditional(%r, %s%s)" % (e[1], src(e[2], spelling), "" if e[3] is None else ", " + src(e[3], spelling))
     if k == "bref":
@@ -92,8 +96,10 @@ def _recv(e, spelling):
     """source of an expression usable as a method receiver"""
     if e[0] == "lit":
         return "Pregex(%r)" % e[1]
+    if e[0] == "sym":
+        return "Pregex(A%d)" % e[1]
     s = src(e, spelling)
-    return s if e[0] in ("obj", "pre") or spelling == "method" else "(%s)" % s
+    return s if e[0] in ("obj", "pre", "psym") or spelling == "method" else "(%s)" % s
 
 
 def _src_method(e):
@@ -121,11 +127,11 @@ def _src_operator(e, rmul=False):
         parts = []
         for i, x in enumerate(e[1]):
             s = src(x, "operator")
-            if x[0] not in ("lit", "obj", "pre"):
+            if x[0] not in ("lit", "obj", "pre", "sym", "psym"):
                 s = "(%s)" % s if x[0] in ("concat", "exactly") and not s.endswith(")") else s
             parts.append(s)
         # make sure at least one of the first two operands is a Pregex so that + dispatches to pregex
-        if e[1][0][0] == "lit" and e[1][1][0] == "lit":
+        if (e[1][0][0] in ("lit", "sym") and e[1][1][0] in ("lit", "sym")) or e[1][0][0] == "sym":
             parts[0] = "Pregex(%s)" % parts[0]
         return "(" + " + ".join(parts) + ")"
     if k == "exactly":
@@ -140,7 +146,7 @@ def _src_operator(e, rmul=False):
 
 def has_operator_form(e):
     k = e[0]
-    if k in ("lit", "obj", "pre", "bref"):
+    if k in ("lit", "obj", "pre", "bref", "sym", "psym"):
         return False
     if k == "cond":
         return has_operator_form(e[2]) or (e[3] is not None and has_operator_form(e[3]))
@@ -205,8 +211,16 @@ def ref(e, leaf_text):
     return r
 
 
+SYM_MARK = "\x00SYM%d\x00"
+
+
 def _ref(e, leaf_text):
     k = e[0]
+    if k in ("sym", "psym"):
+        n = e[2]
+        if n == 0:
+            return Ref("", empty=True)
+        return Ref(SYM_MARK % e[1], wlo=n, whi=n, kind="lit")
     if k in ("lit", "pre"):
         s = e[1]
         if s == "":
@@ -379,7 +393,7 @@ def _strip_outer(rx):
 
 def subexprs(e):
     k = e[0]
-    if k in ("lit", "obj", "pre", "bref"):
+    if k in ("lit", "obj", "pre", "bref", "sym", "psym"):
         return []
     if k == "cond":
         return [e[2]] + ([e[3]] if e[3] is not None else [])
